@@ -51,6 +51,8 @@ type respSpec struct {
 	// through a proxy: the upstream committed its headers (flush) before it wrote anything and named
 	// no type, so none travels with the response; whether a later hop sniffs one is not the gzip handler's doing
 	typeUnknown bool
+	// the upstream dies after it has sent (and flushed) its chunks: the body is never terminated
+	abort bool
 }
 
 func (s respSpec) body() []byte { return bytes.Join(s.chunks, nil) }
@@ -146,6 +148,12 @@ func genResp(t *rapid.T) respSpec {
 	if rapid.Bool().Draw(t, "etag") {
 		s.extraHdr["Etag"] = `"abc"`
 	}
+	if rapid.IntRange(0, 2).Draw(t, "vary") == 0 {
+		s.extraHdr["Vary"] = rapid.SampledFrom([]string{"Origin", "Accept-Language, Cookie", "origin"}).Draw(t, "varyvalue")
+	}
+	if rapid.IntRange(0, 3).Draw(t, "cachecontrol") == 0 {
+		s.extraHdr["Cache-Control"] = "max-age=60, must-revalidate"
+	}
 	if rapid.IntRange(0, 5).Draw(t, "informational") == 0 {
 		s.early = rapid.SampledFrom([][]int{{103}, {103, 103}, {102}}).Draw(t, "early")
 	}
@@ -195,6 +203,10 @@ func innerHandler(s respSpec) http.Handler {
 			}
 			w.Write(c)
 		}
+		if s.abort {
+			flush()
+			panic(http.ErrAbortHandler)
+		}
 	})
 }
 
@@ -242,6 +254,14 @@ func judge(fatalf func(string, ...any), s respSpec, r reqSpec, w wire, plain wir
 		fatalf("status %d, inner handler sent %d\n%s", w.status, s.status, ctx)
 	}
 	compressed = w.header.Get("Content-Encoding") == "gzip" && s.encoding != "gzip"
+	// compressed or not: what the inner handler said about caching stays (the gzip handler may add
+	// Accept-Encoding to Vary, it never takes a value away)
+	if v := s.extraHdr["Vary"]; v != "" && !strings.Contains(strings.Join(w.header.Values("Vary"), ", "), v) {
+		fatalf("Vary %q, the inner handler sent %q\n%s", w.header.Values("Vary"), v, ctx)
+	}
+	if v := s.extraHdr["Cache-Control"]; v != w.header.Get("Cache-Control") {
+		fatalf("Cache-Control %q, the inner handler sent %q\n%s", w.header.Get("Cache-Control"), v, ctx)
+	}
 	matches := ctRe.MatchString(effectiveType(s))
 	mayCompress := clientAcceptsGzip(r) && matches && s.encoding == ""
 	if compressed {
@@ -477,11 +497,29 @@ func TestC17ThroughProxy(t *testing.T) {
 				s.flushAt = 0
 			}
 		}
+		if s.status != 204 && s.status != 304 && r.method != "HEAD" && len(s.body()) > 0 && rapid.IntRange(0, 7).Draw(t, "upstream-dies-mid-body") == 0 {
+			s.abort, s.setLength = true, false
+		}
 		cur.Store(s)
 		wg, wo := withGzip, without
 		flushing := rapid.IntRange(0, 2).Draw(t, "flush-interval-configured") == 0
 		if flushing {
 			wg, wo = withGzipF, withoutF
+		}
+		if s.abort {
+			// a fault on the upstream side: status, headers and a part of the body were sent, then the
+			// connection died.  Compressed or not, the client must not be handed that part as a
+			// complete response.
+			for _, fr := range []*httptest.Server{wg, wo} {
+				w, err := rawExchange(fr.Listener.Addr().String(), r, "/x")
+				if err == nil {
+					t.Fatalf("the upstream died after %d body bytes without terminating the body, but the client was given a complete response: status %d, %d body bytes, Content-Encoding %q (compression configured: %v, flush interval configured: %v)\n%s",
+						len(s.body()), w.status, len(w.body), w.header.Get("Content-Encoding"), fr == wg, flushing, ctxOf(s, r))
+				}
+			}
+			hx.Eval()
+			hx.Class("proxy:upstream-dies-mid-body")
+			return
 		}
 		got, err := rawExchange(wg.Listener.Addr().String(), r, "/x")
 		if err != nil {
